@@ -107,7 +107,10 @@ namespace dsgrid
                 else if (q < 18)
                     op["op"] = "clear";
                 else if (q < 19)
-                    op["op"] = "updateall";
+                {
+                    op["op"] = g.chance(0.5) ? "updateall" : "abandon";
+                    op["c"] = coord();
+                }
                 else
                     op["op"] = "tops";
             }
@@ -168,7 +171,7 @@ namespace dsgrid
         std::map<CoordV, MCell> model;
         long nextId = 0;
         uint64_t h = 1469598103934665603ULL;
-        long flips = 0, emptyClassTop = 0, erases = 0, comps = 0, multiComp = 0, updates = 0;
+        long flips = 0, emptyClassTop = 0, erases = 0, comps = 0, multiComp = 0, updates = 0, abandons = 0;
 
         auto toCoord = [&](const Json &a) {
             G0::Coord c(dim);
@@ -388,6 +391,23 @@ namespace dsgrid
                     g0->add(cell);
                 model[v] = MCell{cell->data.id, cell->data.prio, cell};
             }
+            else if (o == "abandon")
+            {
+                // a cell that is created for a free coordinate and given up again without ever being added
+                // (createCell counts it among its neighbours' neighbours at once; remove() must undo exactly that and
+                // report that the cell was not in the grid)
+                G0::Coord c = toCoord(op["c"]);
+                CoordV v = toV(c);
+                if (model.count(v))
+                    continue;
+                G0::Cell *cell = gb ? static_cast<G0::Cell *>(gb->createCell(c)) : g0->createCell(c);
+                cell->data.prio = 3;
+                cell->data.id = -2;
+                if (g0->remove(cell))
+                    res.violate(prop + ".remove-accepted-absent-cell" + sfx, fmt("op %zu: remove() of a cell that was never added returned true", oi));
+                g0->destroyCell(cell);
+                abandons++;
+            }
             else if (o == "erase")
             {
                 if (model.empty())
@@ -510,6 +530,7 @@ namespace dsgrid
         res.probes["grid.top-with-one-class-empty"] += emptyClassTop;
         res.probes["grid.components-with-several-components"] += multiComp;
         res.probes["grid.erase"] += erases;
+        res.probes["grid.cell-created-and-abandoned-without-add"] += abandons;
         Json info = Json::object();
         info["cells_at_end"] = Json((long)model.size());
         info["erases"] = Json(erases);
